@@ -86,34 +86,43 @@ CInit == /\ hs = [s \in Slots |-> "absent"]
          /\ pm = [p \in PSlots |-> NoMap]
          /\ ob = [o \in OSlots |-> NoObj]
 
+\* guards (state predicates), shared by the actions below and by the trace spec
+ParamsAbsent(p) == p \in PSlots /\ hs[p] = "absent"
+ParamsLive(p)   == p \in PSlots /\ hs[p] = "live"
+ObjCreatable(o, m, base, prm) ==
+    /\ o \in OSlots /\ hs[o] = "absent"
+    /\ m \in Matrices /\ base \in Bases
+    /\ prm = "NULL" \/ (prm = ParamSlotOf(o) /\ hs[prm] = "live")
+ObjLive(o)      == o \in OSlots /\ hs[o] = "live"
+
 \* amgcl_params_create
 ParamsCreate(p) ==
-    /\ p \in PSlots /\ hs[p] = "absent"
+    /\ ParamsAbsent(p)
     /\ hs' = [hs EXCEPT ![p] = "live"]
     /\ pm' = [pm EXCEPT ![p] = NoMap]
     /\ UNCHANGED ob
 
 \* amgcl_params_seti / _setf / _sets : ptree::put(name, value) replaces one entry
 ParamsPut(p, key, text) ==
-    /\ p \in PSlots /\ hs[p] = "live"
+    /\ ParamsLive(p)
     /\ pm' = [pm EXCEPT ![p] = Put(@, key, text)]
     /\ UNCHANGED <<hs, ob>>
 
 \* amgcl_params_read_json : read_json *replaces* the whole tree by the file content
 ParamsReadJson(p, k) ==
-    /\ p \in PSlots /\ hs[p] = "live"
+    /\ ParamsLive(p) /\ k \in ParamSets
     /\ pm' = [pm EXCEPT ![p] = SetMap(p, k)]
     /\ UNCHANGED <<hs, ob>>
 
 \* the setter calls of parameter set k one after the other (model-level grouping)
 ParamsApplySetters(p, k) ==
-    /\ p \in PSlots /\ hs[p] = "live"
+    /\ ParamsLive(p) /\ k \in ParamSets
     /\ pm' = [pm EXCEPT ![p] = ApplyCalls(@, SetCalls(p, k))]
     /\ UNCHANGED <<hs, ob>>
 
 \* amgcl_params_destroy
 ParamsDestroy(p) ==
-    /\ p \in PSlots /\ hs[p] = "live"
+    /\ ParamsLive(p)
     /\ hs' = [hs EXCEPT ![p] = "destroyed"]
     /\ UNCHANGED <<pm, ob>>
 
@@ -121,9 +130,7 @@ ParamsDestroy(p) ==
 \* the right shape; the parameters are *copied* into the object (the params handle may be
 \* changed or destroyed afterwards without any effect on the object)
 ObjCreate(o, m, base, prm) ==
-    /\ o \in OSlots /\ hs[o] = "absent"
-    /\ m \in Matrices /\ base \in Bases
-    /\ prm = "NULL" \/ (prm = ParamSlotOf(o) /\ hs[prm] = "live")
+    /\ ObjCreatable(o, m, base, prm)
     /\ hs' = [hs EXCEPT ![o] = "live"]
     /\ ob' = [ob EXCEPT ![o] = [m |-> m, base |-> base,
                                 prm |-> (IF prm = "NULL" THEN NoMap ELSE pm[prm]),
@@ -133,12 +140,12 @@ ObjCreate(o, m, base, prm) ==
 \* amgcl_precond_apply / _report, amgcl_solver_solve(_f) / _solve_mtx(_f) / _report :
 \* no change of the abstract state (the objects are const in these calls)
 ObjUse(o) ==
-    /\ o \in OSlots /\ hs[o] = "live"
+    /\ ObjLive(o)
     /\ UNCHANGED cvars
 
 \* amgcl_precond_destroy / amgcl_solver_destroy
 ObjDestroy(o) ==
-    /\ o \in OSlots /\ hs[o] = "live"
+    /\ ObjLive(o)
     /\ hs' = [hs EXCEPT ![o] = "destroyed"]
     /\ UNCHANGED <<pm, ob>>
 
